@@ -83,6 +83,24 @@ def mesh_checks(name, rng, report, tier):
                     continue
                 check_mesh(name, g, mesh, slabs, report)
             check_mesh(name, g, mesh, slabs, report)
+    # user-chosen initial space grids that contain the break points but subdivide the pieces unevenly (the number of elements per
+    # slab is then not a multiple of the number of pieces), with 1..3 slabs
+    g = getattr(P, name)()
+    bp = [float(x) for x in g.pw_start]
+    grids = [sorted(set(bp + [(bp[0] + bp[1]) / 2])),
+             sorted(set(bp + [bp[-2] + (bp[-1] - bp[-2]) / 4, bp[-2] + (bp[-1] - bp[-2]) / 2, (bp[0] + bp[1]) / 2]))]
+    for gi, grid in enumerate(grids):
+        for slabs in (1, 2, 3):
+            tgrid = [k / slabs for k in range(slabs + 1)]
+            with contextlib.redirect_stdout(io.StringIO()):
+                mesh = MeshParametrized(g, initial_space_mesh=grid, initial_time_mesh=tgrid)
+                check_mesh(name, g, mesh, "{}/space-grid#{}".format(slabs, gi + 1), report)
+                for _ in range(10):
+                    leaves = list(mesh.leaf_elements)
+                    e = leaves[rng.randrange(len(leaves))]
+                    (mesh.refine_space if rng.random() < 0.6 else mesh.refine_time)(e)
+                check_mesh(name, g, mesh, "{}/space-grid#{}".format(slabs, gi + 1), report)
+            n += 12
     return n + 6
 
 
